@@ -923,7 +923,11 @@ class Model:
             reduced_equations = []
             for eq in self.equations:
                 variable, value = extract_assignment(eq)
-                if variable is not None and is_cyclic(variable, value):
+                if variable is not None and (
+                    variable.name() in eliminated_values or is_cyclic(variable, value)
+                ):
+                    # Already eliminated through an earlier equation of this pass
+                    # (the variable is assigned twice), or a cyclic assignment
                     variable = None
                 if variable is not None:
                     eliminated_values[variable.name()] = value
